@@ -215,6 +215,10 @@ impl Prop for C29 {
                 if x == 107 && rng.chance(1, 2) {
                     for _ in 0..rng.range(1, 2) {
                         let y = *rng.pick(&nodes);
+                        // never a reference from the id to itself (the thorough tier has 107 among its nodes)
+                        if y == x {
+                            continue;
+                        }
                         let e = (y, *rng.pick(&types), rng.chance(1, 2));
                         pre.push(e);
                         let (a, bb) = if e.2 { (e.0, x) } else { (x, e.0) };
@@ -475,6 +479,17 @@ impl Runner for R {
                 (format!("ok {}", o), Verdict::Ok)
             }
             _ => ("bad-op".to_string(), Verdict::Ok),
+        }
+    }
+
+    /// `insert_reference` documents and implements a panic for a reference from a node to itself
+    /// (model and code agree; the services refuse such requests before they get here, property
+    /// C33).  C29 is about deletion: that panic is accepted for exactly that input, as in C28; any
+    /// other panic is a failure.
+    fn on_panic(&self, toks: &[&str]) -> Verdict {
+        match toks {
+            ["ref", a, b, _] if a == b => Verdict::Ok,
+            _ => Verdict::fail("no_panic", "-", "implementation panicked"),
         }
     }
 }
